@@ -1,6 +1,8 @@
 package main
 
 import (
+	"encoding/base64"
+	"crypto/ed25519"
 	"fmt"
 	"sort"
 	"strings"
@@ -384,7 +386,32 @@ func genAuthCase(r *gen.Rand, w *world) (*authCase, error) {
 			}
 			ac.state = append(out, p)
 		}
-		switch r.Intn(4) {
+		switch r.Intn(5) {
+		case 4: // the verifying key of a third-party invite listed under names the rules do not read
+			pub := base64.RawStdEncoding.EncodeToString(w.tpiKey.Public().(ed25519.PublicKey))
+			tc := ref.O("display_name", ref.S("b...@example.org"), "key_validity_url", ref.S("https://id.example/valid"))
+			switch r.Intn(3) {
+			case 0:
+				tc.Set(variant("public_keys"), ref.A(ref.O("public_key", ref.S(pub), "key_validity_url", ref.S("https://id.example/valid"))))
+			case 1:
+				tc.Set(variant("public_key"), ref.S(pub))
+				tc.Set(variant("public_keys"), ref.A(ref.O("public_key", ref.S(pub))))
+			default:
+				tc.Set("public_keys", ref.A(ref.O(variant("public_key"), ref.S(pub), "key_validity_url", ref.S("https://id.example/valid"))))
+			}
+			if te, e := w.build("m.room.third_party_invite", strp("tok1"), sender, tc, nil, ""); e == nil {
+				out := ac.state[:0:0]
+				for _, q := range ac.state {
+					if !(q.Type() == "m.room.third_party_invite" && q.StateKeyEquals("tok1")) {
+						out = append(out, q)
+					}
+				}
+				ac.state = append(out, te)
+			}
+			for target == sender {
+				target = gen.Pick(r, authUsers)
+			}
+			ac.ev, err = w.build("m.room.member", strp(target), sender, ref.O("membership", ref.S("invite"), "third_party_invite", w.signedTPI(target, "tok1", true)), nil, "")
 		case 0: // the membership of the event under test
 			c := ref.O()
 			if r.Chance(0.5) {
